@@ -1705,7 +1705,7 @@ def make_mutant_items_p(rng, n, owners, threads=False):
     items = []
     for k in range(n):
         s, name, owner, desc = mutate_p(rng, only=owners, threads=threads)
-        r = {"spelling": "id" if name in M.FORCE_ID_SPELLING else "mixed", "shuffle": k % 2 == 1, "descriptive": k % 4 == 3,
+        r = {"spelling": "id" if name in M.FORCE_ID_SPELLING else "mixed", "shuffle": k % 2 == 1, "descriptive": k % 4 == 3 and name not in M.FORCE_ID_SPELLING,
              "seed": rng.randrange(1 << 30)}
         doc = S.render(s, random.Random(r["seed"]), r["spelling"], r["shuffle"], r["descriptive"])
         items.append(engine.Item(s, doc, "mutant", mutator=name, owner=owner, desc=desc, render=r, group=engine.scen_hash(s)))
